@@ -60,6 +60,9 @@ def instances(tier):
                     continue
                 out.append({"name": f"inner_w{w}_it{mi}_{dfn}_{dmc}", "func": "run_inner",
                             "kwargs": {"w": w, "nf": 3, "maxit": mi, "dfn": dfn, "dmc": dmc}})
+    # the alias 'log-normal' the package accepts for every distribution argument
+    for dfn, dmc in (("log-normal", "log-normal"), ("log-normal", "normal"), ("normal", "log-normal")):
+        out.append({"name": f"inner_w3_it2_{dfn}_{dmc}", "func": "run_inner", "kwargs": {"w": 3, "nf": 3, "maxit": 2, "dfn": dfn, "dmc": dmc}})
     # algorithm-level instances: the statistics of each accept state are arbitrary symbolic values (a superset of the real ones)
     for w, mi in ([(3, 3), (4, 2), (4, 3)] if tier == "quick" else [(3, 3), (4, 2), (4, 3), (4, 4), (5, 3), (5, 4), (6, 3)]):
         out.append({"name": f"abstract_w{w}_it{mi}", "func": "run_inner_abstract", "kwargs": {"w": w, "maxit": mi}})
